@@ -17,6 +17,7 @@ fn main() {
     let code = match args[1].as_str() {
         "run" => run::main(rest),
         "parse" => parse::main(rest),
+        "globals" => run::globals_main(rest),
         other => {
             eprintln!("unknown sub-command {other}");
             2
